@@ -65,6 +65,7 @@ type Thread struct {
 
 	Panic      any    // value of an escaped panic, if any
 	PanicStack string // stack at the panic
+	killedByChoice bool
 	Obs        uint64 // rolling hash of everything the thread observed
 	Steps      int
 }
@@ -156,6 +157,10 @@ func PointIf(kind string, obj uintptr, enabled func() bool) {
 	}
 	// token is ours again (active was set by the scheduler)
 }
+
+// WasKilled reports whether t was killed by a scheduler choice (as opposed to
+// finishing, panicking or being unwound at the end of the execution).
+func WasKilled(t *Thread) bool { return t.killedByChoice }
 
 // Dead reports whether the calling thread has been killed (it is unwinding).
 func Dead() bool { t := active; return t != nil && t.dead }
@@ -351,6 +356,7 @@ func (x *Exec) run() {
 			if x.Trace {
 				x.Log = append(x.Log, fmt.Sprintf("KILL T%d(%s) before %s", x.last.ID, x.last.Name, x.last.kind))
 			}
+			x.last.killedByChoice = true
 			x.kill(x.last)
 			continue
 		}
